@@ -1859,4 +1859,61 @@ example : ∃ r' ks' s p X,
 
 end InnerFull
 
+section InvRepair
+open XotModel.Repair
+
+/-- ⟦C10_inv_repair_roundtrip⟧ **`C10_reachable_repair_roundtrip` from the invariant alone**: for ANY forest with the
+    invariant (however it was reached), consolidation never switched off, any tables `E` and any document root
+    `r` in the value-level domain with `nameTableOK E`: `create_missing_prefixes(r)` answers Ok, replaces exactly
+    the tree of `r` by `r'` (old handles kept, in order), erases to the tree-level repair, and the repaired
+    document is in the domain, writable, and round-trips to a tree `deep_equal` to the one before the call that
+    differs from it in namespace nodes only. -/
+theorem C10_inv_repair_roundtrip (f : Forest) (E : Env) (hi : f.Inv) (hoff : f.everOff = false)
+    (r : HTree) (hr : r ∈ f.roots) (hdoc : r.value.isDocument = true) (henv : envOK E = true)
+    (hval : r.erase.allNodes (fun v _ => valueOK E v) = true)
+    (hid : (xmlIdValues E r.erase).Nodup) (hone : singleRoot r.erase = true)
+    (htab : nameTableOK E = true) :
+    ((Forest.XCall.createMissingPrefixes r.handle).run ⟨f, E⟩).2 = .ok ∧
+    ∃ r' : HTree, r'.handle = r.handle ∧
+      (f.createMissingPrefixes E r.handle).1.roots =
+        f.roots.map (fun y => if (y.pathOf r.handle).isSome then r' else y) ∧
+      (f.createMissingPrefixes E r.handle).1.rootOf? r.handle = some r' ∧
+      r'.handles.filter (· < f.next) = r.handles ∧
+      createMissingPrefixes E r.erase [] = .ok ((f.createMissingPrefixes E r.handle).2.1, r'.erase) ∧
+      Representable (f.createMissingPrefixes E r.handle).2.1 r'.erase = true ∧
+      namesWritable (f.createMissingPrefixes E r.handle).2.1 r'.erase [] = some true ∧
+      ∃ s p, toXmlString (f.createMissingPrefixes E r.handle).2.1 r'.erase [] = .ok s ∧
+        parseString .document (f.createMissingPrefixes E r.handle).2.1 s = .ok p ∧
+        p.tree = r'.erase ∧ p.env = (f.createMissingPrefixes E r.handle).2.1 ∧ deepEqual p.tree r.erase = true ∧
+        Repair.stripNs p.tree = Repair.stripNs r.erase := by
+  have hrep : Representable E r.erase = true := by
+    rw [(Reach.representable_root hi hoff hr E).2]
+    simp [henv, hdoc, hval, hid, hone]
+  obtain ⟨h1, h2, hg, hd, _⟩ := Reach.root_located hi hr
+  obtain ⟨k, hk, hke⟩ := Reach.element_kid_of_singleRoot hone
+  obtain ⟨r', a1, a2, a3, a4, a5, a6, _, _⟩ := C10_forest_repair_refines_tree_document f hi
+    E r.handle (by rw [hd]; exact hdoc) ⟨r, k, hg, hk, hke⟩ r h1 [] h2
+  obtain ⟨hwr, s, p, k1, k2, k3, k4, _, k6, k7⟩ := C10_repair_roundtrip _ r.erase hrep htab _ _ a2
+  have hrep' := (C10_repair_representable _ r.erase hrep htab _ _ a2).1
+  exact ⟨a1, r', Reach.handle_of_pathOf_nil a4, a5, a3, a6, a2, hrep', hwr, s, p, k1, k2, k3, k4, k6, k7⟩
+
+/-- ⟦C10_reachable_creation_repair_roundtrip⟧ … in particular for the documents built by histories mixing the calls
+    of `Op` with the convenience calls (`creationRun`, `C04_reach_creation`): no side condition on the history. -/
+theorem C10_reachable_creation_repair_roundtrip (ops : List (Op ⊕ Forest.COp)) (E : Env)
+    (hoff : (creationRun ops).everOff = false)
+    (r : HTree) (hr : r ∈ (creationRun ops).roots) (hdoc : r.value.isDocument = true) (henv : envOK E = true)
+    (hval : r.erase.allNodes (fun v _ => valueOK E v) = true)
+    (hid : (xmlIdValues E r.erase).Nodup) (hone : singleRoot r.erase = true)
+    (htab : nameTableOK E = true) :
+    ∃ r' : HTree, r'.handle = r.handle ∧
+      createMissingPrefixes E r.erase [] = .ok (((creationRun ops).createMissingPrefixes E r.handle).2.1, r'.erase) ∧
+      ((creationRun ops).createMissingPrefixes E r.handle).1.rootOf? r.handle = some r' ∧
+      ∃ s p, toXmlString ((creationRun ops).createMissingPrefixes E r.handle).2.1 r'.erase [] = .ok s ∧
+        parseString .document ((creationRun ops).createMissingPrefixes E r.handle).2.1 s = .ok p ∧
+        p.tree = r'.erase ∧ deepEqual p.tree r.erase = true ∧ Repair.stripNs p.tree = Repair.stripNs r.erase := by
+  obtain ⟨_, r', b1, _, b3, _, b5, _, _, s, p, c1, c2, c3, _, c5, c6⟩ :=
+    C10_inv_repair_roundtrip (creationRun ops) E (C04_reach_creation ops) hoff r hr hdoc henv hval hid hone htab
+  exact ⟨r', b1, b5, b3, s, p, c1, c2, c3, c5, c6⟩
+end InvRepair
+
 end XotModel.Props
